@@ -14,6 +14,7 @@ use vsched::report::{Plan, Unit};
 use vsched::{ExecCfg, Outcome, PointKind};
 
 struct Dummy;
+#[cfg_attr(feature = "alt", ractor::async_trait)]
 impl Actor for Dummy {
     type Msg = u32;
     type State = ();
@@ -161,6 +162,7 @@ struct Consumer {
     log: Arc<Mutex<Vec<String>>>,
     self_send: bool,
 }
+#[cfg_attr(feature = "alt", ractor::async_trait)]
 impl Actor for Consumer {
     type Msg = u32;
     type State = ();
@@ -186,6 +188,7 @@ impl Actor for Consumer {
 struct Sup {
     log: Arc<Mutex<Vec<String>>>,
 }
+#[cfg_attr(feature = "alt", ractor::async_trait)]
 impl Actor for Sup {
     type Msg = ();
     type State = ();
